@@ -353,6 +353,27 @@ func c16Run(c lib.Case, env *lib.Env) lib.Result {
 		res.Add("runs_actually_cancelled", 1)
 		res.SetAdd("cancel_instants_hit", cancelClass(s.Cancel))
 	}
+	if s.Consumer == "failfast" && s.Cancel != "none" && c.ID%2 == 0 {
+		// the SAME validator context once more, this time left alone: it must return, and with the true verdict
+		var verr2 error
+		var p2 bool
+		var st2 string
+		v2 := lib.RunWithQuiescence(func() {
+			verr2, p2, st2 = lib.Guard(func() error { return vctx.Validate(context.Background(), dir, sig) })
+		}, 25*time.Second)
+		res.Add("validations_with_a_context_used_before", 1)
+		switch {
+		case !v2.Returned:
+			res.Violate("validate-does-not-return:reused-context-after-"+cancelClass(s.Cancel), desc, v2.Report)
+			return res
+		case p2:
+			res.Violate("validate-panic:reused-context", desc, verr2.Error(), st2)
+		case verr2 == nil && deviates:
+			res.Violate("failfast-false-valid:reused-context-after-"+cancelClass(s.Cancel), desc, "second fail-fast Validate with the same context returned nil on a directory that differs from the signed build")
+		case verr2 != nil && !deviates:
+			res.Violate("failfast-rejects-valid:reused-context-after-"+cancelClass(s.Cancel), desc, verr2.Error())
+		}
+	}
 	// goroutines still alive are reported, not judged (the statement is about the caller not being blocked)
 	time.Sleep(2 * time.Millisecond)
 	if n := runtime.NumGoroutine() - before; n > 0 {
